@@ -19,8 +19,14 @@ a list of lines that is empty is written `E`; `N` stands for Python's `None`.
 `R|<lines>|<first>|<astLast>|<stmtEnd>`
   → `range=<a,b,…> spec=<a,b,…> D=<stmtRangeOverrun | ->`
 
-`X|<lines>|<first>|<stmtEnd>|<adds>|<sharesLine><soleInBlock><isElif><pctRisky>`   (four 0/1 digits)
-  → `D=<classes | ->`   (stmtRangeOverrun, sharedLine, emptyBlock, elifHeader, fstringConversion)
+`X|<lines>|<first>|<stmtEnd>|<adds>|<sharesLine><soleInBlock><isElif><pctRisky><decorated>`   (five 0/1 digits)
+  → `D=<classes | ->`   (stmtRangeOverrun, sharedLine, emptyBlock, elifHeader, fstringConversion, decoratedStmt)
+
+`T|<hook>|<tree>[|<tree>[|<tree>]]`   the real `NodeTransformer` on a tree; hook: `-` (plain copy), `r <id>` (replace the
+  node by the second tree), `d <id>` (the visit of the node returns None), `s <id>` (… returns the list of the 2nd and 3rd tree)
+  tree tokens (space separated): `n KIND ID NFIELDS` then per field `NAME` + (`l TOK` | `c` tree | `m NITEMS` items),
+  item: `x` (None) | `v TOK` | `t` tree
+  → `out=<comma-joined tokens, ids printed as 0 | None | M,<k>,trees> spec=<substTree, for r | na>`
 -/
 open Pya.C16
 open Pya.C11 (Line)
@@ -103,6 +109,119 @@ def specRounds : Nat → St → List String → List String
     let st' := specRound st
     specRounds n st' (s!"{showDiags (visible st.lines st.raw)}~{hashLines st'.lines}" :: acc)
 
+/-! ### generic trees -/
+mutual
+  def parseTree : Nat → List String → Option (Tree × List String)
+    | 0, _ => none
+    | fuel + 1, "n" :: kind :: id :: nf :: rest =>
+      match id.toNat?, nf.toNat? with
+      | some id, some nf =>
+        match parseFields fuel nf rest with
+        | some (fs, rest) => some (.mk kind id fs, rest)
+        | none => none
+      | _, _ => none
+    | _, _ => none
+  def parseFields : Nat → Nat → List String → Option (FieldList × List String)
+    | 0, _, _ => none
+    | _ + 1, 0, toks => some (.nil, toks)
+    | fuel + 1, k + 1, name :: toks =>
+      match parseField fuel toks with
+      | some (f, rest) =>
+        match parseFields fuel k rest with
+        | some (fs, rest) => some (.cons name f fs, rest)
+        | none => none
+      | none => none
+    | _, _, _ => none
+  def parseField : Nat → List String → Option (Field × List String)
+    | 0, _ => none
+    | _ + 1, "l" :: v :: rest => some (.leaf v, rest)
+    | fuel + 1, "c" :: rest =>
+      match parseTree fuel rest with
+      | some (t, rest) => some (.child t, rest)
+      | none => none
+    | fuel + 1, "m" :: k :: rest =>
+      match k.toNat? with
+      | some k =>
+        match parseItems fuel k rest with
+        | some (is, rest) => some (.many is, rest)
+        | none => none
+      | none => none
+    | _, _ => none
+  def parseItems : Nat → Nat → List String → Option (ItemList × List String)
+    | 0, _, _ => none
+    | _ + 1, 0, toks => some (.nil, toks)
+    | fuel + 1, k + 1, "x" :: rest =>
+      match parseItems fuel k rest with
+      | some (is, rest) => some (.cons .none is, rest)
+      | none => none
+    | fuel + 1, k + 1, "v" :: v :: rest =>
+      match parseItems fuel k rest with
+      | some (is, rest) => some (.cons (.val v) is, rest)
+      | none => none
+    | fuel + 1, k + 1, "t" :: rest =>
+      match parseTree fuel rest with
+      | some (t, rest) =>
+        match parseItems fuel k rest with
+        | some (is, rest) => some (.cons (.tree t) is, rest)
+        | none => none
+      | none => none
+    | _, _, _ => none
+end
+
+def parseWholeTree (s : String) : Option Tree :=
+  let toks := words s
+  match parseTree (toks.length + 1) toks with
+  | some (t, []) => some t
+  | _ => none
+
+mutual
+  def fieldCount : FieldList → Nat
+    | .nil => 0
+    | .cons _ _ r => fieldCount r + 1
+  def itemCount : ItemList → Nat
+    | .nil => 0
+    | .cons _ r => itemCount r + 1
+end
+
+mutual
+  def encTree : Tree → List String
+    | .mk k _ fs => ["n", k, "0", toString (fieldCount fs)] ++ encFields fs
+  def encFields : FieldList → List String
+    | .nil => []
+    | .cons n f r => n :: (encField f ++ encFields r)
+  def encField : Field → List String
+    | .leaf v => ["l", v]
+    | .child t => "c" :: encTree t
+    | .many is => ["m", toString (itemCount is)] ++ encItems is
+  def encItems : ItemList → List String
+    | .nil => []
+    | .cons .none r => "x" :: encItems r
+    | .cons (.val v) r => "v" :: v :: encItems r
+    | .cons (.tree t) r => "t" :: (encTree t ++ encItems r)
+end
+
+def showVR : VR → String
+  | .tree t => ",".intercalate (encTree t)
+  | .none => "None"
+  | .many ts => ",".intercalate (["M", toString ts.length] ++ ts.flatMap encTree)
+
+def handleTree (hook : String) (trees : List String) : String :=
+  match words hook, trees.mapM parseWholeTree with
+  | ["-"], some [t] => s!"out={showVR (visit noHook t)} spec={",".intercalate (encTree t)}"
+  | ["r", id], some [t, r] =>
+    match id.toNat? with
+    | some id => s!"out={showVR (visit (replaceHook id r) t)} spec={",".intercalate (encTree (substTree id r t))}"
+    | none => "bad-op"
+  | ["d", id], some [t] =>
+    match id.toNat? with
+    | some id => s!"out={showVR (visit (fun n => if n.id == id then some VR.none else none) t)} spec=na"
+    | none => "bad-op"
+  | ["s", id], some [t, r1, r2] =>
+    match id.toNat? with
+    | some id => s!"out={showVR (visit (fun n => if n.id == id then some (VR.many [r1, r2]) else none) t)} spec=na"
+    | none => "bad-op"
+  | _, _ => "bad-op"
+
 def handle (line : String) : String :=
   match line.splitOn "|" with
   | ["A", ls, dels, adds] =>
@@ -142,14 +261,16 @@ def handle (line : String) : String :=
     | _, _, _, _ => "bad-op"
   | ["X", ls, first, stmtEnd, adds, flags] =>
     match parseLines ls, first.toNat?, stmtEnd.toNat?, parseAdds adds, flags.toList with
-    | some ls, some first, some stmtEnd, some adds, [a, b, c, e] =>
+    | some ls, some first, some stmtEnd, some adds, [a, b, c, e, g] =>
       let fc : FixCase := { lines := ls, first := first, stmtEnd := stmtEnd, adds := adds,
-                            sharesLine := a == '1', soleInBlock := b == '1', isElif := c == '1', pctRisky := e == '1' }
+                            sharesLine := a == '1', soleInBlock := b == '1', isElif := c == '1', pctRisky := e == '1',
+                            decorated := g == '1' }
       let d := classes [(D16_stmtRangeOverrun ls first stmtEnd, "stmtRangeOverrun"), (D16_sharedLine fc, "sharedLine"),
                         (D16_emptyBlock fc, "emptyBlock"), (D16_elifHeader fc, "elifHeader"),
-                        (D16_fstringConversion fc, "fstringConversion")]
+                        (D16_fstringConversion fc, "fstringConversion"), (D16_decoratedStmt fc, "decoratedStmt")]
       s!"D={d}"
     | _, _, _, _, _ => "bad-op"
+  | "T" :: hook :: trees => handleTree hook trees
   | _ => "bad-op"
 
 partial def loop (h : IO.FS.Stream) : IO Unit := do
